@@ -78,7 +78,8 @@ pub fn dosc_to_erg(height: BlockHeight, real: u128) -> u128 {
         .to_biguint()
         .unwrap()
         .try_into()
-        .expect("dosc inflated so much it doesn't fit into a u128")
+        // far into the chain an inflated reward exceeds 128 bits: every amount a transaction can name is below it
+        .unwrap_or(u128::MAX)
 }
 
 /// Reward calculator. Returns the value in real DOSC.
